@@ -680,12 +680,34 @@ class KernelS(KernelX):
                                         if isinstance(t.ops[0], ast.GtE):
                                             return True
                                         found_strict[0] = True
-                    if found_strict[0] and (two_entries[0] or self._contract_two_entries(E)):
+                    if found_strict[0] and (two_entries[0] or self._contract_two_entries(E) or self._outer_two_entries(parent, E)):
                         return True
                     # X (or E) reassigned between guard and loop?
                     if stores_in(s) & xnames:
                         return False
                 return False
+        return False
+
+    def _outer_two_entries(self, node, E):
+        """An exit on `<last index of E> < 1` (continue / break / return / raise) earlier in an ENCLOSING block: the edge count is loop
+        invariant, so the test may sit at the top of an outer loop body.  Nothing on the way may re-bind the name tested or E."""
+        child, par = node, getattr(node, '_parent', None)
+        while par is not None and child is not self.fn:
+            for field in ('body', 'orelse'):
+                blk = getattr(par, field, None)
+                if isinstance(blk, list) and child in blk:
+                    for s_ in blk[:blk.index(child)]:
+                        if isinstance(s_, ast.If) and not s_.orelse and s_.body and isinstance(s_.body[-1], (ast.Break, ast.Continue, ast.Return, ast.Raise)):
+                            tests = list(s_.test.values) if isinstance(s_.test, ast.BoolOp) and isinstance(s_.test.op, ast.Or) else [s_.test]
+                            for t in tests:
+                                if isinstance(t, ast.Compare) and len(t.ops) == 1 and isinstance(t.comparators[0], ast.Constant) and self._is_last_index(t.left, E):
+                                    c_ = t.comparators[0].value
+                                    if (isinstance(t.ops[0], ast.Lt) and c_ == 1) or (isinstance(t.ops[0], (ast.LtE, ast.Eq)) and c_ == 0):
+                                        names = {n.id for n in ast.walk(t.left) if isinstance(n, ast.Name)} | {E}
+                                        later = blk[blk.index(s_) + 1:blk.index(child) + 1]
+                                        if not any(isinstance(n, ast.Name) and isinstance(n.ctx, ast.Store) and n.id in names for x in later for n in ast.walk(x)):
+                                            return True
+            child, par = par, getattr(par, '_parent', None)
         return False
 
     def _contract_two_entries(self, E):
